@@ -25,6 +25,11 @@ def run(c):
                                    (CH + "Chain::txhashset_write", X + "extending"),
                                    ("grin_chain::txhashset::desegmenter::Desegmenter::validate_complete_state", X + "extending"))):
         c.r1("commit-after-extension-%d" % (i + 1), fn, ext, sink=B + "commit", via=2, desc="%s: batch.commit only after %s succeeded" % (fn.split("::")[-1], ext.split("::")[-1]))
+    # restart after a kill between the leaf-set flush and the LMDB commit: the accumulator rebuilt at open is brought in line with the committed
+    # head by the rewind every extension starts with - on both arms (no-op rewind and real rewind) and before success
+    EX = "grin_chain::txhashset::txhashset::Extension::"
+    c.r1("recovery-rewind-rebuilds-accumulator", EX + "rewind", EX + "apply_to_bitmap_accumulator", via=2,
+         desc="Extension::rewind: ok => apply_to_bitmap_accumulator on both arms (the no-op rewind re-derives the last chunk from the leaf set)")
     c.never("setup-head-commit-last", CH + "setup_head", B + "commit", X + "extending", desc="setup_head: no extension runs after the final batch.commit")
     c.never("reset-head-commit-last", CH + "Chain::reset_chain_head", B + "commit", "re:txhashset::txhashset::(extending|header_extending)$",
             desc="reset_chain_head: no extension runs after batch.commit")
